@@ -196,7 +196,7 @@ func TestC01_Reject(t *testing.T) {
 			}
 			uid = u2
 		case "pubkey":
-			vpub = gen.KeyPair(hx.Root()).Draw(t, "otherkey").Pub
+			vpub = gen.OtherKey(t, hx.Root(), "otherkey", tp.key.D).Pub
 		case "negP":
 			vpub = cv.Neg(tp.key.Pub)
 		case "r_range":
